@@ -221,6 +221,10 @@ func (info *Info) Encode(windowsEncodingID uint16) []byte {
 	numRec := len(records)
 	startOfRecords := 6
 	startOfStrings := startOfRecords + numRec*12
+	if startOfStrings > 0xFFFF {
+		// the offset of the string storage is a 16-bit field
+		panic("name: too many name records")
+	}
 	res := make([]byte, startOfStrings+len(b.data))
 
 	res[2] = byte(numRec >> 8)
